@@ -1,7 +1,7 @@
 (* C12 -- property theorems only: each is closed by [exact] of a lemma proved elsewhere. *)
 From Coq Require Import List NArith.
 From Muscle Require Import Common.LE Gw.Tunnel Gw.TunnelProofs Gw.TunnelSound Gw.TunnelSender Gw.TunnelComplete Gw.TunnelTheorems.
-From Muscle Require Import Gw.MiniTunnel Gw.MiniTunnelProofs.
+From Muscle Require Import Gw.MiniTunnel Gw.MiniTunnelProofs Gw.MiniTunnelDrain.
 Import ListNotations.
 Local Open Scope N_scope.
 
@@ -10,7 +10,7 @@ Local Open Scope N_scope.
 Theorem C12_tunnel_sound :
   forall (rc : rcfg) (who : addr -> option sender_run) (net : list (addr * packet)) t out,
     rc_misc rc = false -> 4 <= rc_mtu rc ->
-    (forall a s, who a = Some s -> sr_ok s /\ sc_mtu (sr_cfg s) <= rc_mtu rc) ->
+    (forall a s, who a = Some s -> sr_ok s) ->
     (forall a s p, who a = Some s -> In (a, p) net -> In p (sr_packets s) \/ foreign (rc_magic rc) p) ->
     recv_all rc [] net = (t, out) ->
     forall a s m, who a = Some s -> In (a, m) out -> In m (sr_msgs s).
@@ -98,6 +98,22 @@ Theorem C12_mini_complete :
         /\ mrecv_all inflate rc (map (pair a) pkts) = map (pair a) (filter (mfits c) done).
 Proof. exact mini_complete. Qed.
 Print Assumptions C12_mini_complete.
+
+Theorem C12_mini_complete_drained :
+  forall (deflate : N -> list Byte.byte -> option (list Byte.byte))
+         (inflate : list Byte.byte -> option (list Byte.byte)),
+    (forall lvl x d, deflate lvl x = Some d -> inflate d = Some x) ->
+    forall rc c a pid0 ops mb bud,
+      mcfg_ok c -> rc_misc rc = false ->
+      mc_magic c = rc_magic rc -> sex_ok rc (mc_sex c) = true -> mc_mtu c <= rc_mtu rc ->
+      pid0 < 2 ^ 24 -> no_msetid ops ->
+      Forall (fun m => lenN m < two32) (madded ops) ->
+      (let st1 := fst (mrun deflate c (m_init pid0) ops) in
+       N.of_nat (mout_fuel st1) * mc_mtu c < mb /\ N.of_nat (mout_fuel st1) <= bud) ->
+      mrecv_all inflate rc (map (pair a) (snd (mrun deflate c (m_init pid0) (ops ++ [MOut mb bud]))))
+      = map (pair a) (filter (mfits c) (madded ops)).
+Proof. exact mini_complete_drained. Qed.
+Print Assumptions C12_mini_complete_drained.
 
 (* non-vacuity: a codec satisfying the zlib premise exists, and a run satisfying the other premises
    exercises the compressed path, the uncompressed-with-patched-header path, the drop of an oversize
